@@ -5,11 +5,11 @@ from .. import impl
 from ..diff import _j, _t, show_obs
 from ..refprolog import unify_nsto as ref_unify, canon, Cyclic
 from ..runner import Acc
-from ..terms import A, C, F, V, NIL, term_size, pp as show_term
+from ..terms import A, C, F, V, L, NIL, term_size, pp as show_term
 
 ID = 'C02'
 LEVEL = 'model_checking'
-RULE = ('(r) one engine and the same three variables through ALL ordered pairs of a 33-term universe in 8 (thorough 32) rotations, each unification run to the end and closed - also the cyclic ones, whose outcome is not judged - nothing may be left behind and every result must be the reference result; (p) every ordered pair (t1,t2) of the term universe (quick: all terms of depth <=1 over variables X,Y,Z, '
+RULE = ('(l) every ordered pair of a 40-term universe with wide (3, 5, 8 arguments) and nested terms under every second recursion limit from the caller\'s depth + 6 to + 58: the unification raises RecursionError or has exactly the reference outcome; (r) one engine and the same three variables through ALL ordered pairs of a 33-term universe in 8 (thorough 32) rotations, each unification run to the end and closed - also the cyclic ones, whose outcome is not judged - nothing may be left behind and every result must be the reference result; (p) every ordered pair (t1,t2) of the term universe (quick: all terms of depth <=1 over variables X,Y,Z, '
         'atoms a,b,[], Python constants 1, 1000003, \'str\' (passed as equal but distinct objects) and None, 0, the empty string, -1, -2, 2**61-1 (pairs with colliding Python hashes) (at top level and as arguments of f/1, f/2), two-cell list-shaped terms whose cells are named . or f, wide compounds f/10 f/11 f/12 p/21 next to f1/0 f1/2 p2/1, functors f/0 a/0 (compound terms without arguments, distinct from the atoms) f/1 f/2 g/1 ./2; thorough: additionally all terms of depth <=2 with <=4 symbols under the 6 menu stacks) '
         'x every stack of earlier, still suspended unifications from the menu (quick: 6 stacks; thorough: the depth<=1 universe under every '
         'stack of <=2 equations out of 8 that is consistent and acyclic) x every point of the stack at which the unify generator is CREATED (it is always advanced under the whole stack). For each: number of yields, canonical '
@@ -99,9 +99,9 @@ def stacks(tier):
 
 def plan(tier):
     if tier == 'quick':
-        return [('quick', 'quick', k, 16) for k in range(16)] + [('reuse', k, 8) for k in range(8)]
+        return [('quick', 'quick', k, 16) for k in range(16)] + [('reuse', k, 8) for k in range(8)] + [('limits', k, 16) for k in range(16)]
     # thorough = (depth<=2 universe x the 6 menu stacks) + (depth<=1 universe x all stacks of <=2 equations)
-    return [('thorough', 'quick', k, 256) for k in range(256)] + [('quick', 'thorough', k, 64) for k in range(64)] + [('reuse', k, 32) for k in range(32)]
+    return [('thorough', 'quick', k, 256) for k in range(256)] + [('quick', 'thorough', k, 64) for k in range(64)] + [('reuse', k, 32) for k in range(32)] + [('limits', k, 16) for k in range(16)]
 
 
 def has_dot(t):
@@ -300,7 +300,80 @@ def run_reuse(k, n, acc):
         acc.outcome(('reuse', exp))
 
 
+# ---- unification under every tight recursion limit -------------------------------------------------
+# A unification either finishes with the right outcome or raises RecursionError - it never turns a stack
+# overflow somewhere inside into "the terms do not unify" (or into a partial unifier).  Every ordered pair
+# of a universe with wide and nested terms, under every limit from just above the caller's depth.
+def limit_universe():
+    base = [X, Y, a, b]
+    g2 = lambda t: F('g', F('g', t))  # noqa: E731
+    out = base + [F('f', t, u) for t in base for u in base] + [g2(t) for t in base] + [F('f', g2(X), g2(a)), F('f', g2(a), g2(Y)), F('f', X, g2(X))]
+    out += [F('w', *([X, Y, a, b, X, Y, a, b][:n])) for n in (3, 5, 8)] + [F('w', *([a, a, a, b, b, b, a, b][:n])) for n in (3, 5, 8)]
+    out += [L([a, b, X]), L([a, b, a]), L([X, Y], Z)]
+    return out
+
+
+def run_limits(k, n, acc):
+    import sys
+    U = limit_universe()
+    depth = 0
+    f = sys._getframe()
+    while f is not None:
+        depth += 1
+        f = f.f_back
+    old = sys.getrecursionlimit()
+    for i1, t1 in enumerate(U):
+        if i1 % n != k:
+            continue
+        for t2 in U:
+            try:
+                env = ref_unify(t1, t2, {})
+            except Cyclic:
+                continue
+            exp = None if env is None else canon([X, Y, Z, t1, t2], env)
+            for lim in range(depth + 6, depth + 60, 2):
+                acc.n['evaluations'] += 1
+                acc.n['validated'] += 1
+                yp = impl.YP()
+                vm = {}
+                vx, vy, vz = (impl.to_engine(yp, v, vm) for v in (X, Y, Z))
+                e1, e2 = impl.to_engine(yp, t1, vm), impl.to_engine(yp, t2, vm)
+                got = 'none'
+                raised = False
+                g = None
+                try:
+                    sys.setrecursionlimit(lim)
+                    g = iter(impl.engine.unify(e1, e2))
+                    for _ in g:
+                        sys.setrecursionlimit(old)
+                        got = impl.observe([vx, vy, vz, e1, e2])
+                        break
+                except RecursionError:
+                    raised = True
+                finally:
+                    sys.setrecursionlimit(old)
+                if g is not None and hasattr(g, 'close'):
+                    g.close()
+                acc.n['transitions'] += 1
+                if raised:
+                    acc.outcome(('limit', 'raised'))
+                    continue
+                got = None if got == 'none' else got
+                if got != exp:
+                    acc.violation('limits:wrong-outcome-instead-of-recursion-error', (8, i1, lim), {'limits': [_j(t1), _j(t2), lim - depth]},
+                                  'unify(%s, %s) under recursion limit %d (caller depth %d) did not raise and gives %s, expected %s'
+                                  % (show_term(t1), show_term(t2), lim, depth, show_obs(got) if got else 'no answer', show_obs(exp) if exp else 'no answer'),
+                                  key='limits|%s|%s|%d' % (show_term(t1), show_term(t2), lim - depth))
+                    break
+                acc.n['nontrivial'] += 1
+                acc.outcome(('limit', exp))
+
+
 def run_shard(spec):
+    if spec[0] == 'limits':
+        acc = Acc()
+        run_limits(spec[1], spec[2], acc)
+        return acc
     if spec[0] == 'reuse':
         acc = Acc()
         run_reuse(spec[1], spec[2], acc)
@@ -340,6 +413,36 @@ def run_shard(spec):
 
 
 def replay(case):
+    if 'limits' in case:
+        import sys
+        t1, t2, dl = _t(case['limits'][0]), _t(case['limits'][1]), case['limits'][2]
+        depth = 0
+        f = sys._getframe()
+        while f is not None:
+            depth += 1
+            f = f.f_back
+        env = ref_unify(t1, t2, {})
+        exp = None if env is None else canon([X, Y, Z, t1, t2], env)
+        for lim in range(depth + 6, depth + 60):
+            yp = impl.YP()
+            vm = {}
+            vs = [impl.to_engine(yp, v, vm) for v in (X, Y, Z)]
+            e1, e2 = impl.to_engine(yp, t1, vm), impl.to_engine(yp, t2, vm)
+            got = None
+            old = sys.getrecursionlimit()
+            try:
+                sys.setrecursionlimit(lim)
+                for _ in impl.engine.unify(e1, e2):
+                    sys.setrecursionlimit(old)
+                    got = impl.observe(vs + [e1, e2])
+                    break
+            except RecursionError:
+                continue
+            finally:
+                sys.setrecursionlimit(old)
+            if got != exp:
+                return [('limits:wrong-outcome-instead-of-recursion-error', 'under recursion limit %d: %s, expected %s' % (lim, got, exp))]
+        return []
     if 'reuse' in case:
         acc = Acc()
         run_reuse(case['reuse'][0], 8, acc)
